@@ -241,8 +241,11 @@ def build(sw):
         sw.add("scrypt", dict(fmt="scrypt7", rounds=ln, r=r, p=p), dict(password=pw, salt=st.encode()),
                lambda h, pw, st=st, ln=ln, r=r, p=p: h.using(ident="$7$", salt=st.encode(), rounds=ln, block_size=r, parallelism=p).hash(pw), label="scrypt/$7$")
     # scram: per-algorithm digests
+    tricky = ["e\u00ad\u0301", "pa\u200b\u0308ss", "o\u2060\u0302k", "x\u00a0y", "I\u2168", "\u00aa\u00adb", "n\u180b\u0303o"]      # mapping enables a composition / compatibility forms
     for k, plen in enumerate(sw.plens(cap=300)):
         pwt = content(["ascii", "latin"][k % 2], plen, rnd)          # SASLprep-clean text (no code points unassigned in Unicode 3.2)
+        if k < len(tricky):
+            pwt = tricky[k].encode("utf-8")
         for alg in ("sha-1", "sha-256", "sha-512", "md5"):
             rounds = [1, 2, 100][k % 3]
             salt = salt_bytes([0, 1, 12][k % 3])
